@@ -1,17 +1,17 @@
 ---------------------------- MODULE LimitedQueue ----------------------------
 (***************************************************************************)
-(* cocls::limited_queue<T> (src/cocls/queue.h:254-349) at critical-section *)
+(* cocls::limited_queue<T> (src/cocls/queue.h:264-369) at critical-section *)
 (* grain.                                                                  *)
 (*                                                                         *)
 (* One action per critical section of the implementation (the region       *)
 (* between taking and dropping `_mx`), plus one action for every promise   *)
 (* resolution that is performed *after* the lock was dropped:              *)
-(*   push          : hand-over `p(args...)`           (queue.h:279-280)    *)
+(*   push          : hand-over `p(std::move(item))`   (queue.h:293-294)    *)
 (*   pop           : completion `p()` of the blocked push it admitted      *)
-(*                                                    (queue.h:315-316)    *)
-(*   unblock_push  : `front.second.set_exception(e)`  (queue.h:342-343)    *)
-(*   unblock_pop   : `p.set_exception(e)`             (queue.h:228-229)    *)
-(* pop() resolves its own future inside the lock (queue.h:305).            *)
+(*                                                    (queue.h:335-336)    *)
+(*   unblock_push  : `front.second.set_exception(e)`  (queue.h:362-363)    *)
+(*   unblock_pop   : `p.set_exception(e)`             (queue.h:238-239)    *)
+(* pop() resolves its own future inside the lock (queue.h:325).            *)
 (*                                                                         *)
 (* Pushes are numbered 1,2,3,... in the order in which their critical      *)
 (* sections took effect and the n-th push carries the value n; pops are    *)
@@ -29,16 +29,17 @@
 (* what a direct T(args...) gives, whichever branch the push took.          *)
 (*                                                                         *)
 (* Throwing construction.  PushThrowCS is a push whose item constructor     *)
-(* throws.  The code constructs the item inside the critical section in     *)
-(* the room branch (_queue.emplace, queue.h:288) and in the blocked branch  *)
-(* (T(args...) before _blocked.push, queue.h:285): nothing has been changed *)
-(* yet, the exception leaves push(), no future is returned.  In the         *)
-(* hand-over branch (queue.h:277-280) the parked promise has already been   *)
-(* taken out and claimed when the constructor runs: the code at 5fcdbbb     *)
-(* leaves that pop future pending for ever (candidate defect, reported).    *)
-(* ThrowAtHandover = FALSE keeps such histories out; TRUE models the        *)
-(* repaired behaviour (item built before the waiter is taken: state         *)
-(* unchanged in every branch).                                             *)
+(* throws.  The code constructs the item inside the critical section       *)
+(* before it touches anything: in the room branch (_queue.emplace, strong   *)
+(* guarantee, queue.h:308), in the blocked branch (T(args...) before        *)
+(* _blocked.push, queue.h:305) and -- since commit 3c3638a -- in the        *)
+(* hand-over branch (`T item(args...)` before the waiter is taken,          *)
+(* queue.h:290).  The exception leaves push(), no future is returned,       *)
+(* nothing but the caller's result changes.  FixedThrow = FALSE models the  *)
+(* code before 3c3638a: the hand-over branch took the waiting pop's         *)
+(* promise out first and constructed the item inside the promise call,      *)
+(* which claims the future before it constructs the value -- the waiting    *)
+(* pop was left pending for ever, parked nowhere (NoLostWaiter rejects it). *)
 (*                                                                         *)
 (* Fixed = TRUE models the current code; Fixed = FALSE models the code     *)
 (* before commit fca2138 (push emplaced the item and, when the size then   *)
@@ -57,15 +58,15 @@ CONSTANTS Producers,       \* threads calling push()
           AllowDestroy,    \* TRUE: the queue may be destroyed with parked pops / blocked pushes
           Fixed,           \* TRUE: current code, FALSE: code before fca2138
           MaxThrow,        \* bound on the number of push() calls whose item constructor throws
-          ThrowAtHandover, \* TRUE: a throwing push may also meet a waiting consumer (repaired code only)
+          FixedThrow,      \* TRUE: current code, FALSE: code before 3c3638a (throwing push orphans a waiting pop)
           FormShift        \* rotation of the API forms over the pushes (0..3); the limit rotates them further
 
-ASSUME FormShift \in 0..3 /\ MaxThrow \in Nat /\ ThrowAtHandover \in BOOLEAN
+ASSUME FormShift \in 0..3 /\ MaxThrow \in Nat /\ FixedThrow \in BOOLEAN
 
-VARIABLES limit,     \* _limit (queue.h:348)
+VARIABLES limit,     \* _limit (queue.h:368)
           items,     \* _queue: sequence of values
           waiters,   \* _awaiters: sequence of pop ids whose promise<T> is parked
-          blocked,   \* _blocked (queue.h:347): sequence of [v |-> item, push |-> id of the push whose promise<void> is parked]
+          blocked,   \* _blocked (queue.h:367): sequence of [v |-> item, push |-> id of the push whose promise<void> is parked]
           fut,       \* fut[i]: state of the future<T> returned by the i-th pop()
           pfut,      \* pfut[n]: state of the future<void> returned by the n-th push():
                      \*   "ready" (returned resolved) | "pending" | "done" (was pending, completed by a pop)
@@ -100,7 +101,7 @@ Init == /\ limit \in Limits
         /\ npush = 0 /\ npop = 0 /\ nunbpush = 0 /\ nunbpop = 0 /\ nthrow = 0
         /\ destroyed = FALSE
 
-(* limited_queue::push, queue.h:274-292.
+(* limited_queue::push, queue.h:284-312.
    a) a consumer is parked: take its promise out, leave the critical section, resolve it outside
       and return a resolved future (the future object materialises at the return; it is recorded
       here because nobody can observe it earlier);
@@ -135,19 +136,20 @@ PushCS(t) ==
                  /\ UNCHANGED <<waiters, hold, pc>>
     /\ UNCHANGED <<limit, fut, withdrawn, npop, nunbpush, nunbpop, nthrow, destroyed>>
 
-(* push() whose item constructor throws.  Room branch: _queue.emplace (queue.h:288) has the strong
+(* push() whose item constructor throws.  Room branch: _queue.emplace (queue.h:308) has the strong
    guarantee; blocked branch: T(args...) is evaluated before _blocked.push and the promise handed to the
-   initialiser dies with the future under construction (queue.h:284-286).  Either way the queue is
-   untouched, the lock is released by the unwinding and the exception reaches the caller; the call
-   consumes no push number.  (Hand-over branch: see the module comment, ThrowAtHandover.) *)
+   initialiser dies with the future under construction (queue.h:304-306); hand-over branch: the item is
+   built before the waiter is taken (queue.h:290).  The queue is untouched, the lock is released by the
+   unwinding and the exception reaches the caller; the call consumes no push number.
+   Before 3c3638a (FixedThrow = FALSE) the hand-over branch had already popped the waiter. *)
 PushThrowCS(t) ==
     /\ t \in Producers /\ ~destroyed /\ pc[t] = "idle" /\ nthrow < MaxThrow
-    /\ (waiters = <<>> \/ ThrowAtHandover)
     /\ nthrow' = nthrow + 1
     /\ ret' = [ret EXCEPT ![t] = "threw"]
-    /\ UNCHANGED <<limit, items, waiters, blocked, fut, pfut, pc, hold, withdrawn, npush, npop, nunbpush, nunbpop, destroyed>>
+    /\ IF FixedThrow \/ waiters = <<>> THEN UNCHANGED waiters ELSE waiters' = Tail(waiters)
+    /\ UNCHANGED <<limit, items, blocked, fut, pfut, pc, hold, withdrawn, npush, npop, nunbpush, nunbpop, destroyed>>
 
-(* the promise call `p(args...)` after lk.unlock(), queue.h:279-280 *)
+(* the promise call `p(std::move(item))` after lk.unlock(), queue.h:293-294 *)
 PushResolve(t) ==
     /\ pc[t] = "push_resolve"
     /\ fut' = [fut EXCEPT ![hold[t].pop] = F("val", hold[t].v)]
@@ -155,7 +157,7 @@ PushResolve(t) ==
     /\ hold' = [hold EXCEPT ![t] = NoHold]
     /\ UNCHANGED <<limit, items, waiters, blocked, pfut, ret, withdrawn, npush, npop, nunbpush, nunbpop, nthrow, destroyed>>
 
-(* limited_queue::pop, queue.h:298-322: promise parked, or resolved (inside the lock) with the
+(* limited_queue::pop, queue.h:318-342: promise parked, or resolved (inside the lock) with the
    oldest item; in the latter case the oldest blocked push -- if any -- is admitted: its item moves
    into the queue, its promise is taken out and completed after the lock was dropped *)
 PopCS(t) ==
@@ -177,7 +179,7 @@ PopCS(t) ==
               /\ UNCHANGED waiters
     /\ UNCHANGED <<limit, pfut, withdrawn, npush, nunbpush, nunbpop, nthrow, destroyed>>
 
-(* `p()` after lk.unlock(), queue.h:315-316 *)
+(* `p()` after lk.unlock(), queue.h:335-336 *)
 PopCompletePush(t) ==
     /\ pc[t] = "pop_complete"
     /\ pfut' = [pfut EXCEPT ![hold[t].push] = "done"]
@@ -185,7 +187,7 @@ PopCompletePush(t) ==
     /\ hold' = [hold EXCEPT ![t] = NoHold]
     /\ UNCHANGED <<limit, items, waiters, blocked, fut, ret, withdrawn, npush, npop, nunbpush, nunbpop, nthrow, destroyed>>
 
-(* limited_queue::unblock_push, queue.h:337-344: the oldest (item, promise) pair leaves _blocked;
+(* limited_queue::unblock_push, queue.h:357-364: the oldest (item, promise) pair leaves _blocked;
    the item dies with the local `front`, the promise is failed outside the lock *)
 UnblockPushCS(t) ==
     /\ ~destroyed /\ pc[t] = "idle" /\ nunbpush < MaxUnblockPush
@@ -208,7 +210,7 @@ UnblockPushResolve(t) ==
     /\ hold' = [hold EXCEPT ![t] = NoHold]
     /\ UNCHANGED <<limit, items, waiters, blocked, fut, withdrawn, npush, npop, nunbpush, nunbpop, nthrow, destroyed>>
 
-(* queue::unblock_pop, queue.h:223-230 (protected base of limited_queue) *)
+(* queue::unblock_pop, queue.h:233-240 (protected base of limited_queue) *)
 UnblockPopCS(t) ==
     /\ ~destroyed /\ pc[t] = "idle" /\ nunbpop < MaxUnblockPop
     /\ nunbpop' = nunbpop + 1
